@@ -256,6 +256,7 @@ func (a ApplyCollectiveRemoveProposalHandler) Apply(ctx sdk.Context, proposalID 
 		return types.ErrCollectiveDoesNotExist
 	}
 
-	a.keeper.ExecuteCollectiveRemove(ctx, collective)
-	return nil
+	// a failure half-way (e.g. one contributor's payout) must not be committed: returning the error
+	// makes the proposal router drop the cache context instead of keeping the partial transfers
+	return a.keeper.ExecuteCollectiveRemove(ctx, collective)
 }
